@@ -6,10 +6,8 @@ ID = "C02"
 # exhaustive small scope: 100 x 100 ordered rectangle pairs x 32 configurations per orientation combination;
 # quick = one orientation combination per pair at scale 1, thorough = all four at each of the 7 scales
 _EXH = _q(32 * 10000, 32 * 10000 * 4 * 7)
-
-
-# a case takes ~30 microseconds; one that runs 5 s of wall time (20 s when reproduced alone) is a hang of Execute
-_TMO = ["--case_timeout", "5"]
+_RND_PLAIN = _q(600000, 12000000)
+_RND_PORTABLE = _q(150000, 3000000)
 
 
 def _post(ctx):
@@ -21,6 +19,11 @@ def _post(ctx):
     else:
         ctx["notes"].append("exhaustive sub-space complete: all %d enumerated (rectangle pair x orientation x clip type x fill rule x "
                             "PreserveCollinear%s) cases judged" % (want, "" if ctx["tier"] == "quick" else " x scale"))
+    # a worker that died (even from a load artefact the orchestrator forgives) loses its counters: say so
+    for name, budget in (("rnd_scenes_judged_plain", _RND_PLAIN), ("rnd_scenes_judged_portable", _RND_PORTABLE)):
+        got = ctx["counters"].get(name, 0)
+        if got != budget[ctx["tier"]]:
+            ctx["inconclusive"].append("random workload incomplete: %s = %d of %d scenes (a worker was lost)" % (name, got, budget[ctx["tier"]]))
     for k in ("oracle_cell_centre_on_input_edge",):
         if ctx["counters"].get(k, 0):
             ctx["inconclusive"].append("oracle self-check failed: counter %s = %d" % (k, ctx["counters"][k]))
@@ -57,8 +60,8 @@ PROP = {
                         "'exhaustive sub-space complete'); the property as a whole is explored by sampling"),
     "post": _post,
     "jobs": [
-        {"mon": "mon_c02", "cfg": "plain", "cases": _q(600000, 12000000), "args": _TMO},
-        {"mon": "mon_c02", "cfg": "plain", "cases": _EXH, "args": ["--mode", "exh"] + _TMO, "seed_off": 0},
-        {"mon": "mon_c02", "cfg": "portable", "cases": _q(150000, 3000000), "args": _TMO, "seed_off": 2000003},
+        {"mon": "mon_c02", "cfg": "plain", "cases": _RND_PLAIN},
+        {"mon": "mon_c02", "cfg": "plain", "cases": _EXH, "args": ["--mode", "exh"], "seed_off": 0},
+        {"mon": "mon_c02", "cfg": "portable", "cases": _RND_PORTABLE, "seed_off": 2000003},
     ],
 }
